@@ -45,6 +45,16 @@ export function* generate({ tier, seed }) {
     });
     yield emit(props, [], 'before', `union2|${i}`);
   }
+  // 2b. Boolean / String order through NonNullable, aliases and null in every position
+  for (const [x, y] of [['boolean', 'string'], ['string', 'boolean'], ['true', "'s'"], ["'s'", 'false']]) for (const form of ['NonNullable<null | X | Y>', 'NonNullable<X | null | Y>', 'NonNullable<undefined | null | X | Y>', 'null | X | Y', 'NonNullable<N | X | Y>', 'X | Y | number']) {
+    const decls = form.includes('N |') ? [{ text: 'type N = null | undefined;' }] : [];
+    const src = form.replace('X', x).replace('Y', y);
+    const isB = (t) => t === 'boolean' || t === 'true' || t === 'false';
+    const ctors = [isB(x) ? 'Boolean' : 'String', isB(y) ? 'Boolean' : 'String'];
+    if (form === 'null | X | Y') ctors.unshift(null);
+    if (form.endsWith('number')) ctors.push('Number');
+    yield emit([{ src, ctors, inhabitants: [{ js: isB(x) ? 'true' : '"s"', atom: x }, { js: isB(y) ? 'false' : '"s"', atom: y }], ops: ['order:' + form] }], decls, 'before', `order|${form}|${x}|${y}`);
+  }
   // 3. random trees of depth <= 4
   const nRand = tier === 'quick' ? 12000 : 400000;
   for (let i = 0; i < nRand; i++) {
